@@ -41,7 +41,9 @@ impl<T> serde::Serialize for SerializablePhantom<T> {
     where
         S: serde::Serializer,
     {
-        serializer.serialize_unit_struct(std::any::type_name::<T>())
+        // The type name is a path and therefore not a valid struct name for formats that
+        // write struct names (e.g. RON with `struct_names`), so it is serialized as a string.
+        serializer.serialize_newtype_struct("PhantomData", std::any::type_name::<T>())
     }
 }
 
